@@ -24,27 +24,30 @@ VARIABLES ops,      \* goroutine -> [kind, req, st, dl, prog, name]; st: "waitin
           conn,     \* the client still processes messages (Done() not signalled)
           closing,  \* 0, or the instant at which a Close in progress stops waiting for the router's GOODBYE
           closed,   \* Close has returned
+          deaf,     \* the router has stopped reading (without hanging up): what the client sends is stuck in the send
           sched,    \* replies the router will send at a given instant: sequence of [at, id, mk, a]
           cnow,     \* clock, ms
           rt,       \* the configured response timeout, ms
           obs       \* [ret, emit, cb, done, closeret] of the last step
 
-cvars == <<ops, nreq, csubs, cregs, invs, lastinv, conn, closing, closed, sched, cnow, rt, obs>>
+cvars == <<ops, nreq, csubs, cregs, invs, lastinv, conn, closing, closed, deaf, sched, cnow, rt, obs>>
 
 Rng(f) == {f[i] : i \in DOMAIN f}
 
 CCur == [ops |-> ops, nreq |-> nreq, csubs |-> csubs, cregs |-> cregs, invs |-> invs, lastinv |-> lastinv,
-         conn |-> conn, closing |-> closing, closed |-> closed, sched |-> sched, now |-> cnow, rt |-> rt,
+         conn |-> conn, closing |-> closing, closed |-> closed, deaf |-> deaf, sched |-> sched, now |-> cnow, rt |-> rt,
          ret |-> <<>>, emit |-> <<>>, cb |-> <<>>]
 
 CCommit(S) ==
   /\ ops' = S.ops /\ nreq' = S.nreq /\ csubs' = S.csubs /\ cregs' = S.cregs /\ invs' = S.invs
-  /\ lastinv' = S.lastinv /\ conn' = S.conn /\ closing' = S.closing /\ closed' = S.closed
+  /\ lastinv' = S.lastinv /\ conn' = S.conn /\ closing' = S.closing /\ closed' = S.closed /\ deaf' = S.deaf
   /\ sched' = S.sched /\ cnow' = S.now /\ rt' = S.rt
   /\ obs' = [ret |-> S.ret, emit |-> S.emit, cb |-> S.cb, done |-> ~S.conn, closeret |-> S.closed]
 
 Ret(S, g, out, req)  == [S EXCEPT !.ret = Append(@, [g |-> g, out |-> out, req |-> req])]
-EmitC(S, k, req, x)  == [S EXCEPT !.emit = Append(@, [k |-> k, req |-> req, x |-> x])]
+\* (towards a router that does not read nothing gets out: the sender waits until the client ends)
+EmitC(S, k, req, x)  == IF S.deaf THEN S ELSE [S EXCEPT !.emit = Append(@, [k |-> k, req |-> req, x |-> x])]
+DeafFx(S)            == [S EXCEPT !.deaf = TRUE]
 Cb(S, k, a, b)       == [S EXCEPT !.cb = Append(@, [k |-> k, a |-> a, b |-> b])]
 
 GNum(g) == CASE g = "g1" -> 1 [] g = "g2" -> 2 [] g = "g3" -> 3 [] g = "g4" -> 4 [] OTHER -> 0
@@ -198,7 +201,9 @@ DisconnectFx(S) ==
   ELSE LET S1 == [S EXCEPT !.conn = FALSE, !.sched = <<>>,
                            !.invs = [i \in DOMAIN @ |-> [@[i] EXCEPT !.st = "done"]]]
            S2 == ReturnAll(S1, {g \in Active(S1) : S1.ops[g].st = "waiting"}, "notconn")
-       IN IF S.closing # 0 THEN [S2 EXCEPT !.closing = 0, !.closed = TRUE] ELSE S2
+       \* a Close in progress returns - unless it is still trying to hand its GOODBYE to a router that
+       \* does not read: then it gives up at its own deadline
+       IN IF S.closing # 0 /\ ~S.deaf THEN [S2 EXCEPT !.closing = 0, !.closed = TRUE] ELSE S2
 
 \* Close: say GOODBYE, wait for the router's GOODBYE at most twice the response timeout
 CloseFx(S) ==
@@ -233,7 +238,9 @@ FireTimersAt(S, t) ==
       RECURSIVE kill(_, _)
       kill(T, is) == IF is = {} THEN T ELSE LET i == CHOOSE x \in is : TRUE IN kill(KillInvFx(T, i), is \ {i})
       S2 == IF S1.conn THEN kill(S1, i1) ELSE S1
-  IN IF S2.closing = t THEN DisconnectFx(S2) ELSE S2
+  IN IF S2.closing = t THEN (IF S2.conn THEN [DisconnectFx(S2) EXCEPT !.closing = 0, !.closed = TRUE]
+                             ELSE [S2 EXCEPT !.closing = 0, !.closed = TRUE])
+     ELSE S2
 
 \* replies scheduled for the same instant arrive in either order (ord = "lo" | "hi")
 FireSchedAt(S, t, ord) ==
@@ -258,11 +265,11 @@ ScheduleFx(S, id, mk, a, ms) == [S EXCEPT !.sched = Append(@, [at |-> S.now + ms
 \* --------------------------------------------------------------------------
 CInitWith(timeout) ==
   /\ ops = <<>> /\ nreq = 0 /\ csubs = <<>> /\ cregs = <<>> /\ invs = <<>> /\ lastinv = 0
-  /\ conn = TRUE /\ closing = 0 /\ closed = FALSE /\ sched = <<>> /\ cnow = 0 /\ rt = timeout
+  /\ conn = TRUE /\ closing = 0 /\ closed = FALSE /\ deaf = FALSE /\ sched = <<>> /\ cnow = 0 /\ rt = timeout
   /\ obs = [ret |-> <<>>, emit |-> <<>>, cb |-> <<>>, done |-> FALSE, closeret |-> FALSE]
 \* the same as a step (a new scenario starts)
 CResetTo(timeout) ==
   /\ ops' = <<>> /\ nreq' = 0 /\ csubs' = <<>> /\ cregs' = <<>> /\ invs' = <<>> /\ lastinv' = 0
-  /\ conn' = TRUE /\ closing' = 0 /\ closed' = FALSE /\ sched' = <<>> /\ cnow' = 0 /\ rt' = timeout
+  /\ conn' = TRUE /\ closing' = 0 /\ closed' = FALSE /\ deaf' = FALSE /\ sched' = <<>> /\ cnow' = 0 /\ rt' = timeout
   /\ obs' = [ret |-> <<>>, emit |-> <<>>, cb |-> <<>>, done |-> FALSE, closeret |-> FALSE]
 =============================================================================
